@@ -34,7 +34,8 @@ CODES = {
 }
 CODONS = ["".join(p) for p in itertools.product("TCAG", repeat=3)]
 
-RULE = ("pair: two tables re-weighted (after a deep copy) from random coding sequences in which every amino acid of the "
+RULE = ("reuse: ONE Table value re-weighted in place between two rounds of AddCodonTable / CompromiseCodonTable (both argument "
+        "positions), each round judged as a pair on the table's current value.  pair: two tables re-weighted (after a deep copy) from random coding sequences in which every amino acid of the "
         "code occurs, over all 25 codes; per pair 12-16 cut-offs: a grid over [-1,2], 0 and 1 and their float neighbours, "
         "realised usage shares of both tables and their +/-1 ulp neighbours, tiny and huge values; AddCodonTable and "
         "CompromiseCodonTable both ways, Optimize on the compromise.  Outside the judged domain (correspondence only): "
@@ -236,6 +237,19 @@ def cases(seed, tier):
             b = raw_table(r, code, r.choice([5, 10 ** 6]), ["TTG"], ["TGA", "TAG"])
             cs = cut_list(r, raw_shares(a), raw_shares(b))
             yield ["pair", "raw:" + a, "raw:" + b, ",".join(bits(c) for c in cs), protein(r, r.randint(1, 40))]
+    # ONE Table value used in two rounds of add / compromise (both argument positions) with an in-place re-weighting
+    # between them: a result may depend on the arguments' current values only
+    for _ in range(12 if tier == "quick" else 80):
+        d = r.choice(ids)
+        code = CODES[d]
+        sa = coding_all(r, code, r.choice([0, 100, 1000]), r.choice([1, 3, 6]), r.choice([0, 0.2, 0.5]))
+        sb = coding_all(r, code, r.choice([0, 100, 1000]), r.choice([1, 3, 6]), r.choice([0, 0.2, 0.5]))
+        su = coding_all(r, code, r.choice([0, 100, 1000]), r.choice([1, 3, 6]), r.choice([0, 0.2]))
+        d2 = d
+        for (x, y) in SAME_CODE_IDS:
+            if x == d and r.random() < 0.5: d2 = y
+        cs = cut_list(r, shares(code, sb), shares(code, su))[:8]
+        yield ["reuse", "id:%d:%s" % (d, sa), sb, "id:%d:%s" % (d2, su), ",".join(bits(c) for c in cs), protein(r, r.randint(1, 20))]
     # a few genome-sized sequences (weights of 10^4..10^5 from the real re-weighting path)
     for _ in range(2 if tier == "quick" else 12):
         d = r.choice(ids)
